@@ -11,7 +11,7 @@ use std::{
 use tempfile::TempDir;
 
 use adlt::{
-    dlt::{DltChar4, DLT_MAX_STORAGE_MSG_SIZE},
+    dlt::{DltChar4, DLT_MIN_PARSE_BUFFER_SIZE},
     filter::{
         functions::{filters_from_convert_format, filters_from_dlf},
         Char4OrRegex, Filter,
@@ -800,7 +800,7 @@ pub fn convert<W: std::io::Write + Send + 'static>(
             Ok(fi) => {
                 info!(log, "opened file {} {:?}", &input_file_name, &fi);
                 let buf_reader =
-                    LowMarkBufReader::new(fi, BUFREADER_CAPACITY, DLT_MAX_STORAGE_MSG_SIZE);
+                    LowMarkBufReader::new(fi, BUFREADER_CAPACITY, DLT_MIN_PARSE_BUFFER_SIZE);
                 get_dlt_message_iterator(
                     std::path::Path::new(&input_file_name)
                         .extension()
